@@ -148,7 +148,7 @@ def execute(case, sched=None):
                                                    msg=f"value {vid} with {case['opt2']}: {d}"))
                         if shadow.random[vid]:
                             # random arrays: optimized and unoptimized runs must still agree exactly
-                            if not np.array_equal(r1, r2):
+                            if not np.array_equal(r1, r2, equal_nan=r1.dtype.kind in "fc" and r2.dtype.kind in "fc"):
                                 violations.append(dict(cls="optimized_differs_from_unoptimized",
                                                        msg=f"random-derived value {vid} differs between runs"))
                             continue
